@@ -4,10 +4,10 @@ import IndicatifModel.Model.Locks
 -/
 namespace IndicatifModel.Locks
 
-/-- **Every public call of the repaired code respects the lock order**
+/-- **Every public call, as the code is in the repository now, respects the lock order**
 `ticker slot < join < bar state < multi state < stop flag`, in every configuration. -/
 theorem C08_calls_ordered :
-    ∀ call ∈ allCalls, ∀ inMulti ticker : Bool, ordered [] (program true call inMulti ticker) = true := by
+    ∀ call ∈ allCalls, ∀ inMulti ticker : Bool, ordered [] (program currentF8 call inMulti ticker) = true := by
   decide
 
 /-- the ticker thread only ever needs resources above `join` -/
